@@ -24,7 +24,7 @@ Enumerations: indent_style 0 visual / 1 block; brace_style 0 AlwaysNextLine / 1 
   bud.where_visual <max_width> <tab_spaces> S                              -> n
   bud.where_clause_shape <max_width> <tab_spaces> S                        -> shape | err:<w>
   bud.sig <max_width> <tab_spaces> <indent_style> <fn_params_layout> <brace_style> I <prefix> <ret> <preds> <has_body> <param>…
-        -> <one_line_budget>:<tactic v|h|m>:<params_in_block>:<ret_should_indent>:<closing_paren_overflow>:<force_newline_brace>:<one_line>:<brace on next line 0|1|?>
+        -> <one_line_budget>:<tactic v|h|m>:<paren_break>:<ret_should_indent>:<closing_paren_overflow>:<force_newline_brace>:<one_line>:<brace on next line 0|1|?>
      (the fn brace style is `newline_for_brace` for a function with body, `None` else; `?`: the model
       does not know the last line of the signature)
 -/
@@ -109,7 +109,7 @@ def handleNums (op : String) (a : List Nat) : Option String :=
     let br := match sig_last_line_width c s with
       | none => "?"
       | some w => b01 (brace_on_next_line c preds l.force_newline_brace w (saturatingSub mw s.indent.width))
-    pure (":".intercalate [toString l.one_line_budget, encTactic l.tactic, b01 l.params_in_block,
+    pure (":".intercalate [toString l.one_line_budget, encTactic l.tactic, b01 (l.paren_break c),
       b01 l.ret_should_indent, b01 l.closing_paren_overflow, b01 l.force_newline_brace,
       b01 (sig_one_line c s), br])
   | _, _ => none
